@@ -891,4 +891,165 @@ Proof.
   cbn [fst snd]. intros _. eapply I_done; try eassumption. apply DocsAll_ext; try reflexivity. exact HD.
 Qed.
 
+
+(* ------------------------------------------------------------------ the other events *)
+Ltac inv_cases HI :=
+  destruct HI as [q (HP & HLk & HD) Hst Hpc Hmc Hin Hrs
+                 | q (HP & HLk & HD) Hst Hpc Hmc Hpm Hin Hrs
+                 | q k m (HP & HLk & HD) Hst Hpc Hmc Hpm Hin Hkm Hrs Hlm
+                 | q (HP & HLk & HD) Hst Hpc Hmc Hit Hin Hrs
+                 | q k m (HP & HLk & HD) Hst Hpc Hmc Hit Hin Hrs
+                 | q (HP & HLk & HD) Hst Hpc Hmc Hip Hii Hrs
+                 | (F1 & F2 & F3 & F4 & F5) Hst Hpc Hmc
+                 | (F1 & F2 & F3 & F4 & F5) Hst Hpc Hmc
+                 | r HDA Hst Hpc Hro Hme].
+
+(* the run permit is released (by __call__, or by resume() after it cleared the interruption mark) *)
+Lemma Inv_permit (s : st) os :
+  Inv s os -> (state s = Paused -> interrupted s = false) ->
+  Inv (RE.set_blocking P D (RE.set_permit P D s true) false) os.
+Proof.
+  intros HI Hg. inv_cases HI.
+  - eapply I_ns with (q := q); simp_st; try assumption.
+    split; [exact HP | split; [eapply Link_nsame; [nsame_tac | reflexivity | exact HLk] | exact HD]].
+  - eapply I_rs with (q := q); simp_st; try assumption; try reflexivity.
+    split; [exact HP | split; [eapply Link_nsame; [nsame_tac | reflexivity | exact HLk] | exact HD]].
+  - eapply (I_rc _ _ q k m); simp_st; try assumption; try reflexivity.
+    split; [exact HP | split; [eapply Link_nsame; [nsame_tac | reflexivity | exact HLk] | exact HD]].
+  - eapply I_ps with (q := q); simp_st; try assumption.
+    split; [exact HP | split; [eapply Link_nsame; [nsame_tac | reflexivity | exact HLk] | exact HD]].
+  - eapply (I_pc _ _ q k m); simp_st; try assumption.
+    split; [exact HP | split; [eapply Link_nsame; [nsame_tac | reflexivity | exact HLk] | exact HD]].
+  - eapply I_pd with (q := q); simp_st; try assumption.
+    + split; [exact HP | split; [eapply Link_nsame; [nsame_tac | reflexivity | exact HLk] | exact HD]].
+    + intros Hi. rewrite (Hg Hst) in Hi. discriminate Hi.
+  - eapply I_final; simp_st; try assumption. unfold FinCore. simp_st. auto.
+  - eapply I_late; simp_st; try assumption. unfold FinCore. simp_st. auto.
+  - eapply I_done; simp_st; eassumption.
+Qed.
+
+(* the caching tasks of a bundled read finish *)
+Lemma mark_cached_same (s : st) run d :
+  nsame s (RE.mark_cached P D s run d) /\ state (RE.mark_cached P D s run d) = state s /\ pc (RE.mark_cached P D s run d) = pc s /\
+  must_cancel (RE.mark_cached P D s run d) = must_cancel s /\ permit (RE.mark_cached P D s run d) = permit s /\
+  interrupted (RE.mark_cached P D s run d) = interrupted s /\ resps (RE.mark_cached P D s run d) = resps s /\
+  (bundlers s = [] -> bundlers (RE.mark_cached P D s run d) = []).
+Proof.
+  unfold RE.mark_cached, RE.get_bundler. destruct (alookup run (bundlers s)) eqn:E.
+  - unfold RE.put_bundler. simp_st. split; [nsame_tac|]. repeat split. intros H. rewrite H in E. discriminate E.
+  - split; [unfold nsame; repeat split|]. repeat split. auto.
+Qed.
+
+Lemma Inv_mark_cached (s : st) os run d : Inv s os -> Inv (RE.mark_cached P D s run d) os.
+Proof.
+  intros HI. destruct (mark_cached_same s run d) as (N & M1 & M2 & M3 & M4 & M5 & M6 & M7).
+  assert (HLk' : forall q, Link q s -> Link q (RE.mark_cached P D s run d)).
+  { intros q (L1 & L2 & L3 & L4 & L5 & L6 & L7 & L8 & L9 & L10). destruct N as (A1 & A2 & A3 & A5 & A6 & A7 & A8 & A9 & A10).
+    unfold Link. rewrite A1, A2, A3, A5, A6, A7, A8, A9, A10. repeat split; try assumption. apply mark_cached_BR. exact L4. }
+  assert (HC' : forall q, Core q s os -> Core q (RE.mark_cached P D s run d) os).
+  { intros q (A & B & C). split; [exact A | split; [apply HLk'; exact B | exact C]]. }
+  inv_cases HI.
+  - eapply I_ns with (q := q); try congruence; try (apply HC'; split; [assumption | split; assumption]); try (eapply RespsOK_ext; eassumption);
+      try (destruct Hpc; [left | right]; congruence).
+  - eapply I_rs with (q := q); try congruence; try (apply HC'; split; [assumption | split; assumption]); try (eapply RespsOK_ext; eassumption).
+  - eapply (I_rc _ _ q k m); try congruence; try assumption; try (apply HC'; split; [assumption | split; assumption]); try (eapply RespsOK_ext; eassumption).
+  - eapply I_ps with (q := q); try congruence; try (apply HC'; split; [assumption | split; assumption]); try (eapply RespsOK_ext; eassumption).
+  - eapply (I_pc _ _ q k m); try congruence; try assumption; try (apply HC'; split; [assumption | split; assumption]); try (eapply RespsOK_ext; eassumption).
+  - eapply I_pd with (q := q); try congruence; try (apply HC'; split; [assumption | split; assumption]); try (eapply RespsOK_ext; eassumption);
+      try (intros Hi; rewrite M4; apply Hip; congruence); try (intros Hi; apply Hii; congruence).
+  - destruct N as (A1 & A2 & A3 & A5 & A6 & A7 & A8 & A9 & A10).
+    eapply I_final; try congruence. unfold FinCore. rewrite A2, A6, A10, (M7 F2). auto.
+  - destruct N as (A1 & A2 & A3 & A5 & A6 & A7 & A8 & A9 & A10).
+    eapply I_late; try congruence. unfold FinCore. rewrite A2, A6, A10, (M7 F2). auto.
+  - destruct N as (A1 & A2 & A3 & A5 & A6 & A7 & A8 & A9 & A10). eapply I_done; try eassumption; congruence.
+Qed.
+
+(* no task exception is pending when the invariant holds *)
+Lemma Inv_no_task_exn (s : st) os : Inv s os ->
+  match pc s with PcDone (TRaise ECancelled) => None | PcDone (TRaise e) => Some e | _ => @None exn end = None.
+Proof.
+  intros HI. inv_cases HI; try (destruct Hpc as [Hpc | Hpc]); rewrite Hpc; try reflexivity.
+  destruct r as [v | e]; [reflexivity | destruct e; try discriminate Hro; reflexivity].
+Qed.
+
+Lemma nobintr_BR bs a0 acur aend : BR bs a0 acur aend -> nobintr bs = true.
+Proof.
+  unfold RE_PointsB.BR. destruct (a_run acur).
+  - intros (b & X & Y & r0 & rend & -> & _ & _ & _ & (_ & R2 & _) & _). cbn. rewrite R2. reflexivity.
+  - intros ->. reflexivity.
+Qed.
+
+Lemma Inv_nobintr (s : st) os : Inv s os -> state s <> Idle -> nobintr (bundlers s) = true.
+Proof.
+  intros HI Hn. inv_cases HI; try (eapply nobintr_BR; apply HLk); try (rewrite F2; reflexivity); contradiction.
+Qed.
+
+(* a hard pause request *)
+Ltac csame_tac := unfold csame, lsame; simp_st; repeat split; reflexivity.
+
+Lemma req_result_csame (s : st) e : csame s (fst (RE.req_result P D s e)) /\ neutral (snd (RE.req_result P D s e)).
+Proof.
+  unfold RE.req_result. cbn [fst snd]. split; [destruct (RE.mreq P D s); csame_tac|].
+  destruct e; apply neutral_intro; reflexivity.
+Qed.
+
+Lemma step_reqpause (s : st) os :
+  Inv s os -> Inv (fst (step s (EvReqPause false))) (os ++ snd (step s (EvReqPause false))).
+Proof.
+  intros HI. cbn [RE.step].
+  assert (Href : allowed (state s) Pausing = false ->
+                 Inv (fst (let '(s1, e, o) := RE.request_pause P D s false in
+                           let '(s2, o2) := RE.req_result P D s1 e in (s2, o ++ o2)))
+                     (os ++ snd (let '(s1, e, o) := RE.request_pause P D s false in
+                                 let '(s2, o2) := RE.req_result P D s1 e in (s2, o ++ o2)))).
+  { intros Ha. rewrite (request_pause_refused P D s Ha).
+    destruct (req_result_csame s (Some ETransition)) as [Hc Hn].
+    destruct (RE.req_result P D s (Some ETransition)) as [s2 o2]. cbn [fst snd app] in *.
+    apply Inv_neutral; [exact Hn|]. eapply Inv_csame; eassumption. }
+  assert (Hacc : state s = Running ->
+                 (forall s1, state s1 = Pausing -> must_cancel s1 = true -> interrupted s1 = true -> pc s1 = pc s ->
+                             permit s1 = permit s -> resps s1 = resps s -> deferred s1 = false ->
+                             nsame s (RE.set_deferred P D s1 (deferred s)) -> bundlers s1 = bundlers s -> Inv s1 os) ->
+                 match pc s with PcSleep0 | PcCmd _ | PcFinalSleep _ => True | _ => False end ->
+                 Inv (fst (let '(s1, e, o) := RE.request_pause P D s false in
+                           let '(s2, o2) := RE.req_result P D s1 e in (s2, o ++ o2)))
+                     (os ++ snd (let '(s1, e, o) := RE.request_pause P D s false in
+                                 let '(s2, o2) := RE.req_result P D s1 e in (s2, o ++ o2)))).
+  { intros Hst Hk Hpcs.
+    assert (Hnb : nobintr (bundlers s) = true) by (eapply Inv_nobintr; [exact HI | rewrite Hst; discriminate]).
+    rewrite (request_pause_hard P D s Hst Hnb).
+    match goal with |- context [RE.req_result P D ?x None] =>
+      destruct (req_result_csame x None) as [Hc Hn]; destruct (RE.req_result P D x None) as [s2 o2] end.
+    cbn [fst snd] in *. rewrite app_assoc. apply Inv_neutral; [exact Hn|].
+    apply Inv_neutral; [apply neutral_intro; reflexivity|].
+    eapply Inv_csame; [exact Hc|]. unfold RE.cancel_task.
+    destruct (pc s) eqn:Epc; try contradiction; simp_st; rewrite Epc; apply Hk; simp_st; try reflexivity; try assumption;
+      nsame_tac. }
+  assert (Hlk : forall q s1, Link q s -> deferred s1 = false -> nsame s (RE.set_deferred P D s1 (deferred s)) ->
+                             bundlers s1 = bundlers s -> Link q s1).
+  { intros q s1 HLk E7 (A1 & A2 & A3 & A5 & A6 & A7 & A8 & A9 & A10) A4. simp_st.
+    eapply Link_ext; [|exact HLk]. unfold lsame. repeat split; try assumption.
+    destruct HLk as (_ & _ & _ & _ & _ & _ & L7 & _). congruence. }
+  inv_cases HI.
+  - apply Href. rewrite Hst. apply allowed_idle_pausing.
+  - apply Hacc; try assumption; [|rewrite Hpc; exact I].
+    intros s1 E1 E2 E3 E4 E5 E6 E7 E8 E9.
+    eapply I_ps with (q := q); try congruence.
+    + split; [exact HP | split; [eapply Hlk; eassumption | exact HD]].
+    + eapply RespsOK_ext; eassumption.
+  - apply Hacc; try assumption; [|rewrite Hpc; exact I].
+    intros s1 E1 E2 E3 E4 E5 E6 E7 E8 E9.
+    eapply (I_pc _ _ q k m); try congruence.
+    + split; [exact HP | split; [eapply Hlk; eassumption | exact HD]].
+    + eapply RespsOK_ext; eassumption.
+  - apply Href. rewrite Hst. apply allowed_pausing_pausing.
+  - apply Href. rewrite Hst. apply allowed_pausing_pausing.
+  - apply Href. rewrite Hst. apply allowed_paused_pausing.
+  - apply Hacc; try assumption; [|rewrite Hpc; exact I].
+    intros s1 E1 E2 E3 E4 E5 E6 E7 (A1 & A2 & A3 & A5 & A6 & A7 & A8 & A9 & A10) A4. simp_st.
+    eapply I_late; try congruence. unfold FinCore. rewrite A2, A4, A6, A10. auto.
+  - apply Href. rewrite Hst. apply allowed_pausing_pausing.
+  - apply Href. rewrite Hst. apply allowed_idle_pausing.
+Qed.
+
 End D.
